@@ -196,7 +196,8 @@ pub fn run_c07(cfg: &Cfg, rep: &mut Report) {
     if !cfg.as_c18 {
         let mut cases = 0u64;
         for (c, n, v) in [(9u8, 7u8, 0x2a55u16), (0, 0, 127), (15, 31, 16383)] {
-            let fillers: [Ev; 5] = [
+            let fillers: [Ev; 6] = [
+                Ev::cc(c, ((n + 1) % 32) + 32, 5), // an LSB that does not match the stored MSB
                 Ev::Msg(0x90 | c, 60, 1),
                 Ev::cc(c, n + 32, (v & 127) as u8),
                 Ev::cc(c, n, (v >> 7) as u8),
